@@ -471,6 +471,10 @@ class Interp:
             return T.opaque(bits or 64, "indirect") if bits else None
         if not name.startswith("llvm."):
             S.calls.append((name, args, ins.get("loc")))
+            if name in ("copysign", "copysignf"):
+                return T.concat([T.slice_(args[0], 0, bits - 1), T.msb(args[1])])
+            if name in ("fabs", "fabsf"):
+                return T.concat([T.slice_(args[0], 0, bits - 1), T.const(1, 0)])
             if name in LIBM_AS_INTR:
                 return T.op("call:" + LIBM_AS_INTR[name], bits, *args)
             if name in LIBM_PURE:
@@ -481,6 +485,11 @@ class Interp:
         if base in ("llvm.lifetime.start", "llvm.lifetime.end", "llvm.dbg.value", "llvm.dbg.declare",
                     "llvm.assume", "llvm.experimental.noalias.scope.decl", "llvm.dbg.label"):
             return None
+        if base == "llvm.copysign":
+            return T.concat([T.concat([T.slice_(x, 0, eb - 1), T.msb(y)])
+                             for x, y in zip(self.lanes(args[0], n, eb), self.lanes(args[1], n, eb))])
+        if base == "llvm.fabs":
+            return T.concat([T.concat([T.slice_(x, 0, eb - 1), T.const(1, 0)]) for x in self.lanes(args[0], n, eb)])
         if base == "llvm.bswap":
             out = []
             for x in self.lanes(args[0], n, eb):
